@@ -1,6 +1,7 @@
 /- Lemmas/XerialIO.lean — the reader's behaviour does not depend on how the underlying io.Reader answers. -/
 import KafkaVerif.Model.XerialIO
 import KafkaVerif.Lemmas.Source
+import KafkaVerif.Lemmas.Xerial
 
 namespace KV.Model.Xerial
 open KV KV.RW KV.Model.Source
@@ -61,8 +62,14 @@ theorem framedBodyIO_refines (c : Codec) (x : ReaderIO) (k : Nat) :
         simp only [hnle, if_false, hshort, if_true, hrel2 hshort]
         refine ⟨sc2, ?_⟩
         by_cases hp : 0 < input.length
-        · simp only [hp, if_true]
-        · simp only [hp, if_false]
+        · have hne : input ≠ [] := List.length_pos_iff.mp hp
+          simp only [hp, if_true, hne, if_false]
+        · have he : input = [] := by
+            cases input with
+            | nil => rfl
+            | cons _ _ => simp at hp
+          subst he
+          simp
       · have hle : deN l ≤ input.length := by omega
         simp only [hle, if_true, hshort, if_false]
         exact ⟨sc2, rfl⟩
@@ -151,5 +158,87 @@ theorem readAllWithIO_refines (c : Codec) (ks : List Nat) (x : ReaderIO) :
       | data b => simp only; rw [ih ⟨r', sc'⟩]
       | eof => rfl
       | err => rfl
+
+end KV.Model.Xerial
+
+namespace KV.Model.Xerial
+open KV KV.RW KV.Model.Source
+
+/-- `ReadFrom` in framed mode never loses, duplicates or reorders a byte, for EVERY behaviour of the source -/
+theorem readFromLoop_spec (c : Codec) (fuel : Nat) (w : Writer) (s : Src) (hfr : w.framed = true) (h : WInv c w)
+    (hs : w.input.length + slack ≤ blockCap) (hf : fuelFor s ≤ fuel) :
+    let r := readFromLoop c fuel w s
+    WInv c r.1 ∧ r.1.framed = true ∧ r.1.input.length + slack ≤ blockCap ∧ content r.1 = content w ++ s.data := by
+  induction fuel generalizing w s with
+  | zero => simp [fuelFor] at hf
+  | succ fuel ih =>
+    obtain ⟨fr, inp, ou, bl⟩ := w
+    simp only at hfr hs
+    subst hfr
+    obtain ⟨data, script⟩ := s
+    have hcap : blockCap = 32768 := rfl
+    have hsl : slack = 1024 := rfl
+    -- one iteration with the bytes `b` that arrived: state afterwards
+    have step : ∀ b : Bytes, b.length ≤ blockCap - inp.length →
+        let w1 : Writer := ⟨true, inp ++ b, ou, bl⟩
+        let w2 := if blockCap - w1.input.length < slack then flush c w1 else w1
+        WInv c w2 ∧ w2.framed = true ∧ w2.input.length + slack ≤ blockCap ∧ content w2 = content ⟨true, inp, ou, bl⟩ ++ b := by
+      intro b hb
+      have hw1 : WInv c ⟨true, inp ++ b, ou, bl⟩ := ⟨h.out_eq, h.nonempty, h.bounded, fun hf' => by simp at hf'⟩
+      have hlen1 : (inp ++ b).length ≤ blockCap := by simp only [List.length_append]; omega
+      have hc1 : content ⟨true, inp ++ b, ou, bl⟩ = content ⟨true, inp, ou, bl⟩ ++ b := by simp [content]
+      by_cases hfl : blockCap - (inp ++ b).length < slack
+      · simp only [hfl, if_true]
+        refine ⟨flush_inv c _ hw1 (fun _ => hlen1) (fun hf' => by simp at hf'), by rw [flush_framed],
+          by rw [flush_input]; simp [slack, blockCap], by rw [flush_content, hc1]⟩
+      · simp only [hfl, if_false]
+        exact ⟨hw1, trivial, by simp only [List.length_append] at hfl ⊢; omega, hc1⟩
+    simp only [readFromLoop]
+    by_cases hd : data = []
+    · subst hd
+      have := step [] (by simp)
+      simpa [Src.read] using this
+    · cases script with
+      | nil =>
+        simp only [Src.read, hd, if_false, Bool.false_eq_true]
+        have hb : (data.take (blockCap - inp.length)).length ≤ blockCap - inp.length := by
+          rw [List.length_take]; omega
+        have st := step (data.take (blockCap - inp.length)) hb
+        simp only at st
+        have hdl : 0 < data.length := List.length_pos_iff.mpr hd
+        have hf' : fuelFor ⟨data.drop (blockCap - inp.length), []⟩ ≤ fuel := by
+          simp only [fuelFor, List.length_nil, List.length_drop] at hf ⊢; omega
+        have := ih _ ⟨data.drop (blockCap - inp.length), []⟩ st.2.1 st.1 st.2.2.1 hf'
+        refine ⟨this.1, this.2.1, this.2.2.1, ?_⟩
+        rw [this.2.2.2, st.2.2.2, List.append_assoc, List.take_append_drop]
+      | cons a rest =>
+        simp only [Src.read, hd, if_false]
+        generalize hk : min a.n (blockCap - inp.length) = k
+        have hb : (data.take k).length ≤ blockCap - inp.length := by rw [List.length_take]; omega
+        have st := step (data.take k) hb
+        simp only at st
+        by_cases he : (a.eof && decide (data.length ≤ k)) = true
+        · simp only [he, if_true]
+          have hle : data.length ≤ k := by simpa using (Bool.and_eq_true_iff.mp he).2
+          have ht : data.take k = data := List.take_of_length_le hle
+          rw [ht] at st ⊢
+          exact st
+        · simp only [he, Bool.false_eq_true, if_false]
+          have hf' : fuelFor ⟨data.drop k, rest⟩ ≤ fuel := by
+            simp only [fuelFor, List.length_cons, List.length_drop] at hf ⊢; omega
+          have := ih _ ⟨data.drop k, rest⟩ st.2.1 st.1 st.2.2.1 hf'
+          refine ⟨this.1, this.2.1, this.2.2.1, ?_⟩
+          rw [this.2.2.2, st.2.2.2, List.append_assoc, List.take_append_drop]
+
+theorem readFromUnframed_spec (w : Writer) (s : Src) (hi : w.input.length ≤ blockCap) :
+    (readFromUnframed w s).input = w.input ++ s.data := by
+  unfold readFromUnframed
+  have := (readToEOF_spec (fuelFor s) s blockCap w.input (Nat.le_refl _) (by decide) hi).1
+  rw [this]
+  by_cases he : w.input ++ s.data = []
+  · simp only [he, if_true]
+    have := List.append_eq_nil_iff.mp he
+    simp [this.1]
+  · simp only [he, if_false]
 
 end KV.Model.Xerial
